@@ -450,6 +450,119 @@ def eval_cases(pid, requires, exprs, shard=150, jobs=16, timeout=900, opens=()):
     return results, errors
 
 
+# ----------------------------------------------------------------------------- same values, different container
+def relayouts(a):
+    """[(tag, array)]: arrays with exactly the values of `a` in other memory layouts / flag settings.  A function of the
+    VALUES of its arguments (every property quantifies over values) must return the same result for each of them."""
+    import numpy as np
+    a = np.asarray(a)
+    out = []
+    if a.ndim >= 2:
+        out.append(('fortran', np.asfortranarray(a)))
+        t = np.ascontiguousarray(np.swapaxes(a, -1, -2))
+        out.append(('transposed-view', np.swapaxes(t, -1, -2)))            # non-contiguous view, same values
+    if a.ndim >= 1 and a.shape[-1] >= 1:
+        big = np.zeros(a.shape[:-1] + (2 * a.shape[-1],), dtype=a.dtype)
+        big[..., ::2] = a
+        out.append(('strided-view', big[..., ::2]))
+    w = np.array(a, copy=True)
+    w.setflags(write=True)
+    out.append(('writeable-copy', w))
+    return out
+
+
+def recasts(a, allow=('int', 'real', 'single')):
+    """[(tag, array)]: value-preserving dtype changes: integer typed when every entry is a (small) integer, real typed
+    when the imaginary part is identically zero"""
+    import numpy as np
+    a = np.asarray(a)
+    out = []
+    if a.dtype.kind in 'fc' and a.size and np.all(np.isfinite(a)):
+        re = a.real if a.dtype.kind == 'c' else a
+        if a.dtype.kind == 'c' and 'real' in allow and not np.any(a.imag):
+            out.append(('real-dtype', np.array(re)))
+        if 'int' in allow and (a.dtype.kind == 'f' or not np.any(a.imag)) and np.all(re == np.round(re)):
+            m = np.abs(re).max()
+            if m < 2 ** 31:
+                out.append(('int32', re.astype(np.int32)))
+                out.append(('int64', re.astype(np.int64)))
+            if m < 2 ** 7:
+                out.append(('int8', re.astype(np.int8)))
+    return out
+
+
+def other_values(a):
+    """an array of the same shape / dtype holding different but equally valid values (all axes reversed, halved):
+    reversal keeps Hermitian PSD stacks, masks in [0, 1], unit modulus etc."""
+    import numpy as np
+    a = np.asarray(a)
+    b = a[tuple(slice(None, None, -1) for _ in range(a.ndim))]
+    if a.dtype.kind in 'fc':
+        b = b * 0.5
+    return np.array(b, dtype=a.dtype, copy=True)
+
+
+def stale_probe(fn, arrays):
+    """call fn once on buffers holding OTHER values, refresh the very same buffers in place with the real values and call
+    again: the second result must be the result for the real values (identity-keyed caches, results aliasing inputs,
+    inputs modified by the first call all surface here).  Returns the second result."""
+    import numpy as np
+    bufs = [None if a is None else other_values(a) for a in arrays]
+    try:
+        fn(*bufs)
+    except Exception:
+        pass                                  # the warm-up values may be refused; the refreshed call is what counts
+    for b, a in zip(bufs, arrays):
+        if b is not None:
+            b[...] = a
+    return fn(*bufs)
+
+
+def container_variants(fn, arrays, expect, close, which=('layout', 'stale'), recast_allow=(), recast_args=None):
+    """fn(*arrays) was verified to give `expect`.  Re-run it with the same VALUES in other containers and report the
+    first variant whose result is not `close` to expect (or which raises).  Returns failure text or None."""
+    import numpy as np
+    def run(tag, args):
+        try:
+            r = fn(*args)
+        except Exception as e:
+            return '%s: raised %s: %s' % (tag, type(e).__name__, str(e)[:160])
+        try:
+            ok = close(r, expect)
+        except Exception as e:
+            ok = False
+        return None if ok else '%s: result differs from the result for the same values in a plain C-ordered array' % tag
+    if 'layout' in which:
+        for i, a in enumerate(arrays):
+            if a is None:
+                continue
+            for tag, v in relayouts(a):
+                args = list(arrays)
+                args[i] = v
+                f = run('argument %d as %s' % (i, tag), args)
+                if f:
+                    return f
+    if recast_allow:
+        for i, a in enumerate(arrays):
+            if a is None or (recast_args is not None and i not in recast_args):
+                continue
+            for tag, v in recasts(a, recast_allow):
+                args = list(arrays)
+                args[i] = v
+                f = run('argument %d as %s' % (i, tag), args)
+                if f:
+                    return f
+    if 'stale' in which:
+        try:
+            r = stale_probe(fn, arrays)
+            if not close(r, expect):
+                return ('second call on the same buffers after they were refreshed in place returns a result for other '
+                        '(stale) values')
+        except Exception as e:
+            return 'second call on refreshed buffers raised %s: %s' % (type(e).__name__, str(e)[:160])
+    return None
+
+
 def deliberate_exception(e):
     """an exception the library (or sklearn on its behalf) raises ON PURPOSE - an 'explicit exception' in the sense of
     the properties - as opposed to one that escapes from NumPy because shapes or types went wrong"""
